@@ -36,7 +36,7 @@ func (c15) Describe() CheckInfo {
 		},
 		RealCode:       []string{"gopatch main()/mainCmd.Run, findFiles/findGoFiles, internal/*"},
 		Stubs:          []string{"package os (simulated filesystem incl. symlinks, fifo, shuffled readdir)", "path/filepath Walk re-hosted on the simulated os", "io/ioutil"},
-		RequiredProbes: []string{"excluded-dir-nested", "symlink-to-dir", "symlink-to-file", "dir-named-like-go-file", "overlapping-args", "duplicate-args", "explicit-file-in-excluded-dir", "dotdot-respelling", "absolute-arg", "non-go-file", "absolute-noncanonical-arg", "readdir-shuffled", "permuted-rerun", "dot-named-go-file", "hard-link", "non-directory-with-excluded-name", "symlink-argument", "unparseable-file-in-requested-set", "excluded-dir-named-like-go-file", "argument-through-symlinked-directory", "name-with-pattern-characters", "resolved-path-beyond-path-max", "many-unparseable-files", "file-named-like-sibling-directory", "names-differing-only-in-case", "many-skipped-generated-files-under-descriptor-limit"},
+		RequiredProbes: []string{"working-directory-gone", "excluded-dir-nested", "symlink-to-dir", "symlink-to-file", "dir-named-like-go-file", "overlapping-args", "duplicate-args", "explicit-file-in-excluded-dir", "dotdot-respelling", "absolute-arg", "non-go-file", "absolute-noncanonical-arg", "readdir-shuffled", "permuted-rerun", "dot-named-go-file", "hard-link", "non-directory-with-excluded-name", "symlink-argument", "unparseable-file-in-requested-set", "excluded-dir-named-like-go-file", "argument-through-symlinked-directory", "name-with-pattern-characters", "resolved-path-beyond-path-max", "many-unparseable-files", "file-named-like-sibling-directory", "names-differing-only-in-case", "many-skipped-generated-files-under-descriptor-limit"},
 	}
 }
 
@@ -155,7 +155,13 @@ func (c15) Gen(env *Env, seed uint64, tier string, i int) *Case {
 				c.SetNode(world.NodeSpec{Path: p, Kind: "file", Data: data})
 				continue
 			}
-			c.SetNode(world.NodeSpec{Path: p, Kind: "file", Data: data})
+			ns := world.NodeSpec{Path: p, Kind: "file", Data: data}
+			if r.Chance(1, 10) {
+				// permission bits of every kind: a requested file is a requested file
+				ns.Mode = []uint32{0o444, 0o400, 0o555, 0o464, 0o600, 0o755, 0o666}[r.Intn(7)]
+				c.Extra["odd_mode"] = "1"
+			}
+			c.SetNode(ns)
 			gofiles = append(gofiles, p)
 		case roll < 80:
 			name := r.Pick([]string{"notes.txt", "go.mod", "README.md", "x.go.bak", "gen.go~", "Makefile", "data.gox", "go", ".go.swp"})
@@ -521,6 +527,22 @@ func c15Reference(c *Case, w *world.World) []string {
 
 func (c15) Eval(env *Env, c *Case) []Violation {
 	var vs []Violation
+	// a replayed case of the working-directory-gone family carries its fault plan,
+	// environment and extra nodes; everything else runs without them
+	explicitFaults := len(c.Spec.Faults) > 0
+	if explicitFaults {
+		c = c.Clone()
+		c.Spec.Faults, c.Spec.Env = nil, nil
+		c.DropFile(SimRoot + "/elsewhere/e.go")
+		c.DropFile(SimRoot + "/elsewhere/sub/f.go")
+		var nodes []world.NodeSpec
+		for _, n := range c.Spec.Nodes {
+			if !strings.HasPrefix(n.Path, SimRoot+"/elsewhere") {
+				nodes = append(nodes, n)
+			}
+		}
+		c.Spec.Nodes = nodes
+	}
 	seen := map[string]bool{}
 	add := func(oracle, sig, detail string) {
 		s := "C15/" + oracle + "/" + sig
@@ -840,6 +862,47 @@ func (c15) Eval(env *Env, c *Case) []Violation {
 	qc.RebuildArgs()
 	r4 := env.Run(qc.Spec)
 	judgePrint(r4, "permuted")
+	// the working directory is gone (getwd fails) while the environment still
+	// carries a PWD - of another directory with Go files in it: whatever gopatch
+	// makes of the relative arguments then, it does not touch a file that the
+	// arguments, read against the true working directory, do not name
+	if c.Idx%6 == 2 || explicitFaults {
+		gw := -1
+		for k, o := range r1.Log {
+			if o.Name == "getwd" {
+				gw = k
+				break
+			}
+		}
+		if gw >= 0 {
+			gc := c.Clone()
+			else1 := SimRoot + "/elsewhere"
+			gc.SetNode(world.NodeSpec{Path: else1 + "/e.go", Kind: "file", Data: c15GoFile(900)})
+			gc.SetNode(world.NodeSpec{Path: else1 + "/sub/f.go", Kind: "file", Data: c15GoFile(901)})
+			gc.Spec.Env = map[string]string{"PWD": else1, "OLDPWD": ProjDir, "HOME": else1}
+			gc.RebuildArgs()
+			gc.Spec.Faults = []world.Fault{{AtOp: gw, Kind: "fail", Errno: "ENOENT", Sticky: true}}
+			rg := env.Run(gc.Spec)
+			if len(rg.Fired) > 0 && (rg.Outcome == OutExit || rg.Outcome == OutCrash) {
+				env.Probe("working-directory-gone")
+				for _, st := range rg.Final {
+					if st.Kind != world.KFile || !strings.HasPrefix(st.Path, else1+"/") {
+						continue
+					}
+					if !bytes.Equal(st.Data, c15GoFile(900)) && !bytes.Equal(st.Data, c15GoFile(901)) {
+						vc := gc.Clone()
+						vs = append(vs, Violation{Oracle: "touched-other", Signature: "C15/touched-other/resolved-against-stale-PWD", Case: vc,
+							Detail: fmt.Sprintf("getwd fails (the working directory was removed) and gopatch rewrote %s, a file under $PWD=%s that no argument names (args %v, exit %d, stderr %q)", st.Path, else1, rg.W.Args, rg.Exit, clip(string(rg.Stderr), 300))})
+						break
+					}
+				}
+				if bytes.Contains(rg.Stdout, []byte("unit900")) || bytes.Contains(rg.Stdout, []byte("unit901")) {
+					vs = append(vs, Violation{Oracle: "touched-other", Signature: "C15/touched-other/printed-from-stale-PWD", Case: gc.Clone(),
+						Detail: fmt.Sprintf("getwd fails and gopatch printed a file under $PWD=%s that no argument names (args %v)", else1, rg.W.Args)})
+				}
+			}
+		}
+	}
 	if c.Extra["alias_arg"] == "1" {
 		env.Probe("argument-through-symlinked-directory")
 		if r2.Outcome == OutExit && r4.Outcome == OutExit && !c.Flags.Verbose && !bytes.Equal(r2.Stdout, r4.Stdout) {
